@@ -1,11 +1,415 @@
-// Package c16 is the correspondence/oracle harness for property C16.
+// Package c16: word-processor documents (DOCX, ODT) keep their order and structure.
 package c16
 
-import "verifharness/hx"
+import (
+	"fmt"
+	"os"
+	"path/filepath"
+	"strings"
+
+	"github.com/tsawler/tabula"
+	"github.com/tsawler/tabula/docx"
+	"github.com/tsawler/tabula/odt"
+
+	"verifharness/hx"
+	"verifharness/writers"
+)
+
+type docCase struct {
+	Seed   uint64 `json:"seed"`
+	Index  int    `json:"index"`
+	Format string `json:"format"`
+	File   string `json:"file,omitempty"`
+}
+
+func sexpOrDash(n *Node) string {
+	if n == nil {
+		return "-"
+	}
+	return n.Sexp()
+}
+
+// ---- canonical element lists (what the correspondence compares) ---------------------
+
+func dumpDocx(els []docx.VerifElem) string {
+	var parts []string
+	for _, e := range els {
+		if e.Kind == "p" {
+			h, l := "-", "-"
+			if e.IsHeading {
+				h = fmt.Sprintf("h%d", e.Level)
+			}
+			if e.IsListItem {
+				l = fmt.Sprintf("%s.%d", hx.HexS(e.NumID), e.ListLevel)
+			}
+			parts = append(parts, "p:"+h+":"+l+":"+hx.HexS(e.Text))
+			continue
+		}
+		var rows []string
+		for _, r := range e.Rows {
+			var cells []string
+			for _, c := range r {
+				cont := 0
+				if c.Cont {
+					cont = 1
+				}
+				cells = append(cells, fmt.Sprintf("%s.%d.%d.%d", hx.HexS(c.Text), c.ColSpan, c.RowSpan, cont))
+			}
+			rows = append(rows, strings.Join(cells, ","))
+		}
+		parts = append(parts, "t:"+strings.Join(rows, "/"))
+	}
+	return fmt.Sprintf("%d %s", len(els), strings.Join(parts, ";"))
+}
+
+func dumpOdt(els []odt.VerifElem) string {
+	var parts []string
+	for _, e := range els {
+		if e.Kind == "p" {
+			h, l := "-", "-"
+			if e.IsHeading {
+				h = fmt.Sprintf("h%d", e.Level)
+			}
+			if e.IsListItem {
+				l = fmt.Sprintf("L%d", e.ListLevel)
+			}
+			parts = append(parts, "p:"+h+":"+l+":"+hx.HexS(e.Text))
+			continue
+		}
+		var rows []string
+		for _, r := range e.Rows {
+			var cells []string
+			for _, c := range r {
+				cov := 0
+				if c.Covered {
+					cov = 1
+				}
+				cells = append(cells, fmt.Sprintf("%s.%d.%d.%d", hx.HexS(c.Text), c.ColSpan, c.RowSpan, cov))
+			}
+			rows = append(rows, strings.Join(cells, ","))
+		}
+		parts = append(parts, "t:"+strings.Join(rows, "/"))
+	}
+	return fmt.Sprintf("%d %s", len(els), strings.Join(parts, ";"))
+}
+
+// ---- one generated document -------------------------------------------------------------
+
+func formatOf(idx int) string {
+	if idx%2 == 0 {
+		return "docx"
+	}
+	return "odt"
+}
+
+// RunDoc generates document #idx of the seed's stream, writes the package, runs the
+// implementation through both API layers and evaluates correspondence + oracles.
+func RunDoc(c *hx.Ctx, idx int, keep bool) {
+	r := c.Rng.Fork(uint64(idx))
+	F := formatOf(idx)
+	d := genDoc(r, F)
+	kase := docCase{Seed: c.Seed, Index: idx, Format: F}
+	path := filepath.Join(c.OutDir, fmt.Sprintf("doc-%d.%s", idx, F))
+	var opLine string
+	if F == "docx" {
+		pkg := writeDocx(r, d)
+		os.WriteFile(path, writers.Zip(pkg.Members), 0o644)
+		opLine = "c16.docx " + pkg.Doc.Sexp() + " " + sexpOrDash(pkg.Styles)
+	} else {
+		pkg := writeOdt(r, d)
+		os.WriteFile(path, writers.Zip(pkg.Members), 0o644)
+		opLine = "c16.odt " + pkg.Content.Sexp() + " " + sexpOrDash(pkg.Styles)
+	}
+	if keep {
+		kase.File = path
+	} else {
+		defer os.Remove(path)
+	}
+
+	var out outputs
+	var implLine string
+	var openErr, apiErr error
+	var rdText, rdMD string
+	pan := hx.Safe(func() {
+		if F == "docx" {
+			rd, err := docx.Open(path)
+			if err != nil {
+				openErr = err
+				return
+			}
+			defer rd.Close()
+			implLine = dumpDocx(rd.VerifElements())
+			rdText, _ = rd.Text()
+			rdMD, _ = rd.Markdown()
+		} else {
+			rd, err := odt.Open(path)
+			if err != nil {
+				openErr = err
+				return
+			}
+			defer rd.Close()
+			implLine = dumpOdt(rd.VerifElements())
+			rdText, _ = rd.Text()
+			rdMD, _ = rd.Markdown()
+		}
+		var e1, e2, e3 error
+		out.Text, _, e1 = tabula.Open(path).Text()
+		out.MD, _, e2 = tabula.Open(path).ToMarkdown()
+		out.Doc, _, e3 = tabula.Open(path).Document()
+		for _, e := range []error{e1, e2, e3} {
+			if e != nil {
+				apiErr = e
+			}
+		}
+	})
+	if !c.Check("C16/panic", pan == "", kase, func() string { return "panic: " + pan }) {
+		c.Case(d.canon(), false)
+		return
+	}
+	if !c.Check("C16/"+F+"-open", openErr == nil && apiErr == nil, kase, func() string { return fmt.Sprint(openErr, apiErr) }) {
+		c.Case(d.canon(), false)
+		return
+	}
+	c.Op(opLine, implLine)
+	c.Check("C16/"+F+"-api-agree", out.Text == rdText && out.MD == rdMD, kase, func() string {
+		return fmt.Sprintf("tabula.Open(f).Text()/ToMarkdown() differ from the %s reader's Text()/Markdown()", F)
+	})
+	f := evaluate(d, out)
+	if dbg := os.Getenv("VERIF_C16_DEBUG"); dbg != "" {
+		for k, det := range f {
+			if strings.Contains(k, dbg) {
+				fmt.Fprintf(os.Stderr, "DEBUG %s-%s idx=%d: %s\n", F, k, idx, det)
+			}
+		}
+	}
+	for _, k := range oracleKeys[F] {
+		detail, bad := f[k]
+		c.Check("C16/"+F+"-"+k, !bad, kase, func() string { return detail })
+	}
+	for k, detail := range f { // a key the table above does not list is still a failure
+		known := false
+		for _, kk := range oracleKeys[F] {
+			known = known || kk == k
+		}
+		if !known {
+			det := detail
+			c.Check("C16/"+F+"-"+k, false, kase, func() string { return det })
+		}
+	}
+	stats(c, d)
+	c.Case(d.canon(), len(flatten(out.Doc)) > 0)
+}
+
+func stats(c *hx.Ctx, d *ldoc) {
+	c.Count(d.Format)
+	c.Count(fmt.Sprintf("%s-blocks=%d", d.Format, min(len(d.Blocks), 12)))
+	if !d.Styles {
+		c.Count(d.Format + "-no-styles-part")
+	}
+	if len(d.Header)+len(d.Footer) > 0 {
+		c.Count(d.Format + "-header/footer")
+	}
+	seenMulti := false
+	for _, bl := range d.Blocks {
+		if bl.T != nil {
+			c.Count(d.Format + "-table")
+			if seenMulti {
+				c.Count(d.Format + "-table-after-multipara-table")
+			}
+			if bl.T.multiPara() {
+				seenMulti = true
+			}
+			for _, cell := range bl.T.Cells {
+				if cell.RS > 1 || cell.CS > 1 {
+					c.Count(d.Format + "-merged-cell")
+				}
+				if cell.Nested != nil {
+					c.Count(d.Format + "-nested-table")
+				}
+			}
+			continue
+		}
+		c.Count(d.Format + "-" + bl.P.Kind)
+		if bl.P.Kind == "h" {
+			c.Count(d.Format + "-heading-via-" + bl.P.Via)
+		}
+		for _, ru := range bl.P.Runs {
+			if ru.Wrap != "" {
+				c.Count(d.Format + "-wrap-" + ru.Wrap)
+			}
+			for i, it := range ru.Items {
+				if it.Kind != "t" && i+1 < len(ru.Items) && ru.Items[i+1].Kind == "t" {
+					c.Count(d.Format + "-" + it.Kind + "-before-text-in-run")
+				}
+			}
+		}
+	}
+}
+
+// ---- malformed stream: damaged packages must not crash the readers -----------------------
+
+func malformed(c *hx.Ctx, idx int) {
+	r := c.Rng.Fork(uint64(1_000_000 + idx))
+	F := formatOf(idx)
+	d := genDoc(r, F)
+	var members []writers.Member
+	main := "word/document.xml"
+	if F == "docx" {
+		members = writeDocx(r, d).Members
+	} else {
+		members = writeOdt(r, d).Members
+		main = "content.xml"
+	}
+	fault := r.Intn(5)
+	for i := range members {
+		m := &members[i]
+		target := m.Name == main
+		if fault >= 3 {
+			target = strings.HasSuffix(m.Name, "styles.xml") || strings.HasSuffix(m.Name, "numbering.xml") || strings.HasSuffix(m.Name, "header1.xml")
+		}
+		if !target {
+			continue
+		}
+		switch fault {
+		case 0, 3: // truncate
+			m.Data = m.Data[:r.Intn(len(m.Data)+1)]
+		case 1, 4: // flip a few bytes
+			for k := 0; k < 3 && len(m.Data) > 0; k++ {
+				m.Data[r.Intn(len(m.Data))] = byte("<>/\"& x"[r.Intn(7)])
+			}
+		case 2: // drop a closing tag somewhere
+			s := string(m.Data)
+			if k := strings.LastIndex(s[:len(s)/2+1], "</"); k >= 0 {
+				if e := strings.Index(s[k:], ">"); e >= 0 {
+					m.Data = []byte(s[:k] + s[k+e+1:])
+				}
+			}
+		}
+	}
+	path := filepath.Join(c.OutDir, fmt.Sprintf("bad-%d.%s", idx, F))
+	os.WriteFile(path, writers.Zip(members), 0o644)
+	defer os.Remove(path)
+	kase := map[string]interface{}{"seed": c.Seed, "index": idx, "format": F, "malformed": true}
+	pan := hx.Safe(func() {
+		tabula.Open(path).Text()
+		tabula.Open(path).ToMarkdown()
+		tabula.Open(path).Document()
+	})
+	c.Check("C16/panic", pan == "", kase, func() string { return "panic on damaged package: " + pan })
+	c.Count(F + "-malformed")
+	c.Case(fmt.Sprintf("bad%d", idx), false)
+}
+
+// ---- fixed witnesses of the defects quoted in the property text -----------------------------
+
+func tx(tok string) []lrun { return []lrun{{Items: []inl{{Kind: "t", Tok: tok}}}} }
+
+func oneCell(paras ...string) *lcell {
+	c := &lcell{RS: 1, CS: 1}
+	for _, p := range paras {
+		c.Paras = append(c.Paras, lpara{Kind: "p", Runs: tx(p)})
+	}
+	return c
+}
+
+// witnessDocs are minimal documents for the four quoted defects (and their ODT twins).
+func witnessDocs() []*ldoc {
+	t1 := &ltable{R: 1, C: 1, Cells: map[[2]int]*lcell{{0, 0}: oneCell("W001x", "W002x")}, Cover: map[[2]int][2]int{}}
+	t2 := &ltable{R: 1, C: 1, Cells: map[[2]int]*lcell{{0, 0}: oneCell("W003x")}, Cover: map[[2]int][2]int{}}
+	mk := func(F string, blocks ...lblock) *ldoc { return &ldoc{Format: F, Blocks: blocks} }
+	return []*ldoc{
+		// a table with a two-paragraph cell, then a table, then a paragraph
+		mk("docx", lblock{T: t1}, lblock{T: t2}, lblock{P: &lpara{Kind: "p", Runs: tx("W004x")}}),
+		// a tab before the text of the same run
+		mk("docx", lblock{P: &lpara{Kind: "p", Runs: []lrun{{Items: []inl{{Kind: "t", Tok: "W001x"}}}, {Items: []inl{{Kind: "tab"}, {Kind: "t", Tok: "W002x"}}}}}}),
+		// text inside a hyperlink / a tracked insertion / a content control, between plain runs
+		mk("docx", lblock{P: &lpara{Kind: "p", Runs: []lrun{{Items: []inl{{Kind: "t", Tok: "W001x"}}}, {Wrap: "hyperlink", Items: []inl{{Kind: "t", Tok: "W002x"}}}, {Items: []inl{{Kind: "t", Tok: "W003x"}}}}}}),
+		mk("docx", lblock{P: &lpara{Kind: "p", Runs: []lrun{{Items: []inl{{Kind: "t", Tok: "W001x"}}}, {Wrap: "ins", Items: []inl{{Kind: "t", Tok: "W002x"}}}, {Items: []inl{{Kind: "t", Tok: "W003x"}}}}}}),
+		mk("docx", lblock{P: &lpara{Kind: "p", Runs: []lrun{{Items: []inl{{Kind: "t", Tok: "W001x"}}}, {Wrap: "sdt", Items: []inl{{Kind: "t", Tok: "W002x"}}}, {Items: []inl{{Kind: "t", Tok: "W003x"}}}}}}),
+		// ODT: text, span, text
+		mk("odt", lblock{P: &lpara{Kind: "p", Runs: []lrun{{Items: []inl{{Kind: "t", Tok: "W001x"}}}, {Wrap: "span", Items: []inl{{Kind: "t", Tok: "W002x"}}}, {Items: []inl{{Kind: "t", Tok: "W003x"}}}}}}),
+		mk("odt", lblock{T: t1}, lblock{T: t2}, lblock{P: &lpara{Kind: "p", Runs: tx("W004x")}}),
+	}
+}
+
+func runWitness(c *hx.Ctx, wi int, keep bool) {
+	d := witnessDocs()[wi]
+	r := hx.NewRng(7) // the witnesses use no random choice that matters
+	kase := map[string]interface{}{"witness": wi, "format": d.Format}
+	path := filepath.Join(c.OutDir, fmt.Sprintf("witness-%d.%s", wi, d.Format))
+	var opLine string
+	if d.Format == "docx" {
+		pkg := writeDocx(r, d)
+		os.WriteFile(path, writers.Zip(pkg.Members), 0o644)
+		opLine = "c16.docx " + pkg.Doc.Sexp() + " -"
+	} else {
+		pkg := writeOdt(r, d)
+		os.WriteFile(path, writers.Zip(pkg.Members), 0o644)
+		opLine = "c16.odt " + pkg.Content.Sexp() + " -"
+	}
+	if !keep {
+		defer os.Remove(path)
+	}
+	var out outputs
+	var implLine string
+	pan := hx.Safe(func() {
+		if d.Format == "docx" {
+			if rd, err := docx.Open(path); err == nil {
+				implLine = dumpDocx(rd.VerifElements())
+				rd.Close()
+			}
+		} else {
+			if rd, err := odt.Open(path); err == nil {
+				implLine = dumpOdt(rd.VerifElements())
+				rd.Close()
+			}
+		}
+		out.Text, _, _ = tabula.Open(path).Text()
+		out.MD, _, _ = tabula.Open(path).ToMarkdown()
+		out.Doc, _, _ = tabula.Open(path).Document()
+	})
+	if !c.Check("C16/panic", pan == "", kase, func() string { return "panic: " + pan }) {
+		return
+	}
+	c.Op(opLine, implLine)
+	f := evaluate(d, out)
+	for _, k := range oracleKeys[d.Format] {
+		detail, bad := f[k]
+		c.Check("C16/"+d.Format+"-"+k, !bad, kase, func() string { return detail })
+	}
+	c.Count("witness")
+	c.Case(fmt.Sprintf("witness%d", wi), true)
+}
 
 func init() { hx.Register("C16", Run, Replay) }
 
-// Run is not built yet for this property.
-func Run(c *hx.Ctx) { c.Note("C16: harness not built") }
+func Run(c *hx.Ctx) {
+	c.Rep.Rule = "random logical documents (1..12 blocks: paragraphs with 1..4 runs/spans of mixed inline content incl. hyperlink/ins/sdt wrappers, " +
+		"headings via built-in/custom/inherited/name/outline/cyclic styles, multi-level lists, tables with multi-paragraph cells, merges and nested tables, " +
+		"optional styles/numbering/header/footer/meta parts, shuffled part order), every text piece a unique token, rendered by the harness's own DOCX and ODT writers " +
+		"(even index = DOCX, odd = ODT); plus fixed witnesses of the quoted defects and a stream of damaged packages; non-trivial = Document() has at least one element"
+	for wi := range witnessDocs() {
+		runWitness(c, wi, false)
+	}
+	n := c.N(700, 12000)
+	for i := 0; i < n; i++ {
+		RunDoc(c, i, false)
+	}
+	for i := 0; i < c.N(100, 1500); i++ {
+		malformed(c, i)
+	}
+}
 
-func Replay(c *hx.Ctx, kase map[string]interface{}) {}
+// Replay re-runs one recorded failing case on the implementation (the package is kept).
+func Replay(c *hx.Ctx, kase map[string]interface{}) {
+	if w, ok := kase["witness"].(float64); ok {
+		runWitness(c, int(w), true)
+		return
+	}
+	idx, _ := kase["index"].(float64)
+	if m, _ := kase["malformed"].(bool); m {
+		malformed(c, int(idx))
+		return
+	}
+	RunDoc(c, int(idx), true)
+}
